@@ -249,7 +249,55 @@ func init() {
 						}
 					}
 				}
-				if path, reach := reachAfter(fn, nil, s, cut, nil); reach {
+				// the lookup may sit in the helper that holds the update, handed the logs as an
+				// argument (round 7, N2-r8): look for a guarded level down the chain of helpers
+				guardedBelow := false
+				if len(e.via) > 0 {
+					ls := logSet
+					for i, g := range e.via {
+						var seeds []ssa.Value
+						cargs := e.chain[i].Common().Args
+						for j, prm := range g.Params {
+							if j < len(cargs) && ls[cargs[j]] {
+								seeds = append(seeds, prm)
+							}
+						}
+						if len(seeds) == 0 {
+							break
+						}
+						ls = forward(seeds, fwdOpts{noBinOp: true})
+						var oks, keys []ssa.Value
+						for _, b := range g.Blocks {
+							for _, in := range b.Instrs {
+								if lk, ok := in.(*ssa.Lookup); ok && lk.CommaOk && ls[lk.X] {
+									keys = append(keys, lk.Index)
+									for _, ref := range *lk.Referrers() {
+										if ex, ok := ref.(*ssa.Extract); ok && ex.Index == 1 {
+											oks = append(oks, ex)
+										}
+									}
+								}
+							}
+						}
+						if len(oks) == 0 || i+1 >= len(e.chain) {
+							continue
+						}
+						gcut := mkCut(boolEdges(g, forward(oks, fwdOpts{noBinOp: true}), false))
+						if _, reach := reachAfter(g, nil, e.chain[i+1], gcut, nil); reach {
+							continue
+						}
+						if args := e.inner.Common().Args; len(args) >= 2 {
+							for _, k := range keys {
+								if sameElemSub(k, args[1], e.sub) {
+									guardedBelow = true
+								}
+							}
+						}
+					}
+				}
+				if guardedBelow {
+					r.okWhy(key, p.Rel(s.Pos()), what, "guarded by the lookup inside the helper that is handed the transaction's logs"+viaText(e))
+				} else if path, reach := reachAfter(fn, nil, s, cut, nil); reach {
 					r.bad(key, p.Rel(s.Pos()), what, fmtPath("ref update reachable without passing the not-yet-logged edge", path))
 				} else if !keyAgrees {
 					r.bad(key, p.Rel(s.Pos()), what, "the transaction-log lookup uses a different key than the ref name the update is logged under (the reflog is keyed by the full ref name): the test can never find an already-moved branch")
